@@ -55,17 +55,26 @@ Definition obs_eqb (a b : obs) : bool :=
    (Model/ErrorsFwd.v): sources merged with MergeStreamReaders, the merged stream read to EOF;
    the observation must be an interleaving of the forwarded members (a single member is read
    directly). *)
+(* [CaseN]: a case whose answer depends on the schedule (parallel nodes / tool calls) is run several
+   times on the implementation; EVERY distinct observation must be one of the legal answers. *)
 Inductive ccase : Type :=
 | Case (F : forest) (p : paradigm) (cancel_before : bool) (in_item : option err) (o : obs)
+| CaseN (F : forest) (p : paradigm) (cancel_before : bool) (in_item : option err) (os : list obs)
 | FwdCase (srcs : list (list selem)) (o : fobs).
 
 Definition legal (c : ccase) : list (option obs) :=
-  match c with Case F p cb ii _ => map obs_of (answers F p cb ii) | FwdCase _ _ => [] end.
+  match c with
+  | Case F p cb ii _ | CaseN F p cb ii _ => map obs_of (answers F p cb ii)
+  | FwdCase _ _ => []
+  end.
+
+Definition is_legal (ls : list (option obs)) (o : obs) : bool :=
+  existsb (fun l => match l with Some o' => obs_eqb o o' | None => false end) ls.
 
 Definition bad (c : ccase) : bool :=
   match c with
-  | Case F p cb ii o =>
-      negb (existsb (fun l => match l with Some o' => obs_eqb o o' | None => false end) (legal c))
+  | Case F p cb ii o => negb (is_legal (legal c) o)
+  | CaseN F p cb ii os => let ls := legal c in negb (forallb (is_legal ls) os) || match os with [] => true | _ => false end
   | FwdCase srcs o => negb (fwd_legal srcs o)
   end.
 
